@@ -24,6 +24,7 @@ mod rng;
 mod runner;
 mod server;
 mod simclient;
+mod simhttp;
 mod threads;
 mod world;
 
@@ -116,7 +117,7 @@ fn plan(prop: &str) -> Vec<(Eng, u64, u64)> {
         "C01" | "C03" | "C07" => vec![(Eng::E1U, 90_000, 800_000), (Eng::E1J, 80_000, 300_000)],
         "C17" => vec![(Eng::E1U, 35_000, 30_000), (Eng::E1J, 25_000, 12_000)], // thorough: fewer but far larger runs (batches up to 5000)
         "C04" | "C05" | "C06" | "C09" | "C10" | "C11" | "C12" => vec![(Eng::E3, 150_000, 1_000_000)],
-        "C20" => vec![(Eng::E2U, 100_000, 1_000_000), (Eng::E2J, 60_000, 400_000)],
+        "C20" => vec![(Eng::E2U, 70_000, 1_000_000), (Eng::E2J, 60_000, 400_000)],
         "C16" => vec![(Eng::E4, 60_000, 1_000_000)],
         "C08" => vec![(Eng::E1U, 30_000, 400_000), (Eng::E1J, 20_000, 150_000), (Eng::E2U, 15_000, 200_000), (Eng::E5, 12_000, 300_000), (Eng::E5J, 8_000, 150_000)],
         _ => vec![],
@@ -491,7 +492,7 @@ fn components() -> Value {
             "engine e5 (C08): the handlers and AppState of rotala/src/http/{uist,jura}.rs as a textual shadow copy compiled into the simulator (std::sync::Mutex -> the simulator's scheduler-aware mutex, crate:: -> rotala::); exchange, data feed and serde types are the library's own"
         ],
         "stub": [
-            "uistv1_client::Client / jurav1_client::Client (reqwest), HttpServer, TCP: replaced by SimClient over the same handlers",
+            "reqwest, HttpServer, TCP: replaced by SimClient over the same handlers (broker engines) and by sim/src/simhttp.rs under the shipped uistv1_client::Client (engine e2, one run in three: URL formats, bodies and decoding of the real client run); jurav1_client::Client is not driven",
             "TestClient is not the broker's client in engines e3/e4 (SimClient is: eager/direct mode is behaviourally the same, with the server state visible and the delivery schedulable)",
             "OS thread scheduling and std::sync::Mutex (engine e5): replaced by baton passing under a seeded chooser",
             "Penelope::random (thread_rng), from_binance, source::*: replaced by the seeded market model",
